@@ -46,6 +46,27 @@ def gen_scenario(rng, sid, base, inside_dir=False, small=False):
     return A.Scenario(sid, base, groups, move_dir="w/zz_out" if inside_dir else "out")
 
 
+def gen_long_scenario(rng, sid, base, inside_dir=False):
+    """victims whose base name is 230..255 bytes long (temp_file() appends 25 bytes: from 231 on the temporary name exceeds
+    NAME_MAX and rename/open fail with ENAMETOOLONG), each with pre-existing UNRELATED siblings <N>. and <N>.t where such a
+    name can exist: nothing may ever happen to those, and the victims must stay intact when the command fails."""
+    content = bytes([97 + rng.below(26) for _ in range(5 + rng.below(20))]) + b"L"
+    lens = [254, 255, 231 + rng.below(23), 230]
+    dirs = ["b", "b", "c", "c"]
+    members = [("a/keep", 0)]
+    extra = []
+    for i, (n, d) in enumerate(zip(lens, dirs)):
+        name = chr(103 + i) + "".join(chr(97 + rng.below(26)) for _ in range(n - 1))
+        members.append(("%s/%s" % (d, name), i + 1))
+        if n + 1 <= 255:
+            extra.append(("file", "w/%s/%s." % (d, name), b"unrelated-dot-%d" % i))
+        if n + 2 <= 255:
+            extra.append(("file", "w/%s/%s.t" % (d, name), b"unrelated-t-%d-x" % i))
+    scn = A.Scenario(sid, base, [{"content": content, "members": members}], extra=extra, move_dir="w/zz_out" if inside_dir else "out")
+    scn.long_names = True
+    return scn
+
+
 def victims_of(cmds):
     return {c["a"] for c in cmds}
 
@@ -138,6 +159,11 @@ def property_oracle(c):
     for t in targets:
         if inv1.get(t) != c.inv0.get(t):
             bad.append(("retained_touched", "retained file %s changed: %r -> %r" % (t, c.inv0.get(t), inv1.get(t))))
+    # nothing outside the commands' victims may ever change (crash or not): unreported siblings, retained files, links
+    for p, e in c.inv0.items():
+        if e[0] in ("F", "L") and p not in vs and p not in targets and c.inv1.get(p) != e:
+            bad.append(("unrelated_file_touched", "%s is not processed by any command and changed: %r -> %r"
+                        % (p if len(p) < 200 else "..." + p[-120:], e[:3], (c.inv1.get(p) or ("gone",))[:3])))
     for cm in c.cmds:
         a = cm["a"]
         e0 = c.inv0[a]
@@ -186,7 +212,7 @@ def describe(c):
             "model_input": c.line}
 
 
-def explore(env, make_scn, op, tier_quick, rng, errnos, shard, nshards):
+def explore(env, make_scn, op, tier_quick, rng, errnos, shard, nshards, light=False):
     """the runs of one scenario x op whose fault index k is congruent to shard (each shard works on its own
     copy of the scenario, so shards run in parallel); returns list of Case"""
     scn = make_scn("_%d" % shard)
@@ -206,6 +232,10 @@ def explore(env, make_scn, op, tier_quick, rng, errnos, shard, nshards):
         for k in range(1, m + 1):
             if k % nshards != shard:
                 continue
+            if light:
+                out.append(run_case(env, scn, op, {"fail": (k, errnos[k % 5])}, inv0, cmds, sim=sim))
+                out.append(run_case(env, scn, op, {"kill": (k, "after")}, inv0, cmds, sim=sim))
+                continue
             if k in in_copy:
                 es = errnos          # open of the target, fchmod, copy_file_range...: every errno, also in the quick tier
             elif tier_quick:
@@ -223,7 +253,7 @@ def explore(env, make_scn, op, tier_quick, rng, errnos, shard, nshards):
             for d in range(1, span + 1):
                 out.append(run_case(env, scn, op, {"fail": (k, rng.choice(errnos)), "fail2": (k + d, rng.choice(errnos))},
                                     inv0, cmds, sim=sim))
-    if op == "move":
+    if op == "move" and not light:
         # the copy branch: every rename forced to fail with EXDEV (as across file systems), then a second failure /
         # a kill at every call of the fallback (mkdir check, open+truncate, fchmod, copy_file_range x2, unlink)
         c0 = run_case(env, scn, op, {}, inv0, cmds)
@@ -279,7 +309,8 @@ def run(ctx):
         rp = json.load(open(ctx.replay))
         d = rp["scenario"]
         scn = A.Scenario("replay", ctx.scratch, [{"content": b"x" * g["content_len"] + bytes([48 + i]), "members": [tuple(m) for m in g["members"]]}
-                                                 for i, g in enumerate(d["groups"])], move_dir=d["move_dir"])
+                                                 for i, g in enumerate(d["groups"])], move_dir=d["move_dir"],
+                         extra=[tuple(x.encode("latin1") if (j == 2 and e[0] == "file") else x for j, x in enumerate(e)) for e in d.get("extra", [])])
         os.makedirs(scn.base, exist_ok=True)
         groups = scn.make_report(env["fclones"])
         scn.build()
@@ -306,9 +337,20 @@ def run(ctx):
                     scn.fake_mount = (op == "move_copy")
                     return scn
                 for sh in range(nshards):
-                    jobs.append((make_scn, real_op, ctx.rng.fork(), sh))
+                    jobs.append((make_scn, real_op, ctx.rng.fork(), sh, False))
+        # victims with 230..255-byte names and unrelated siblings <N>. / <N>.t : every op, a lighter fault sweep
+        seed = ctx.rng.next()
+        for op in A.OPS + ["move_copy"]:
+            real_op = "move" if op == "move_copy" else op
+
+            def make_long(suffix, seed=seed, op=op):
+                scn = gen_long_scenario(core.SplitMix64(seed), "long_%s%s" % (op, suffix), ctx.scratch)
+                scn.fake_mount = (op == "move_copy")
+                return scn
+            for sh in range(nshards):
+                jobs.append((make_long, real_op, ctx.rng.fork(), sh, True))
         with ThreadPoolExecutor(max_workers=core.NCPU) as ex:
-            res = list(ex.map(lambda j: explore(env, j[0], j[1], ctx.quick, j[2], errnos, j[3], nshards), jobs))
+            res = list(ex.map(lambda j: explore(env, j[0], j[1], ctx.quick, j[2], errnos, j[3], nshards, light=j[4]), jobs))
         cases = [c for r in res for c in r]
 
     outs = core.run_lines_parallel(model, [c.line for c in cases])
@@ -325,6 +367,10 @@ def run(ctx):
         ctx.bump("operation", c.op + ("+simulated_ficlone" if c.sim else "") + ("_by_copy(other_mount)" if getattr(c.scn, "fake_mount", False) else ""))
         ctx.bump("fault", kind)
         ctx.bump("groups", len(c.scn.groups))
+        if getattr(c.scn, "long_names", False):
+            ctx.bump("victim_name_length_230_255_with_unrelated_siblings", c.op + ("_by_copy" if getattr(c.scn, "fake_mount", False) else ""))
+            if any(x.get("env_fail") and x["res"] == "EOTHER" for x in c.calls):
+                ctx.bump("ENAMETOOLONG_on_the_temp_name(environment_fault)", c.op)
         ctx.bump("commands_in_script", len(c.cmds))
         hit = None
         if spec:
